@@ -63,13 +63,34 @@ CHECKS = {
  "C10": dict(cat="model_checking", ref="§3 C10",
    text="(a) Explicit-state exploration of honest session histories from the query on (one or both sides asking, texts with key rotation, SMP, extra symmetric key, End, fragmentation, all delivery interleavings): every emitted message is parsed by verifref — an independent implementation written from the specification with the standard library only — and re-derived from both sides' secrets, located in the randomness logs by verification (g^d, commitment hash): commit, D-H key, SSID, c/c', m1/m1', m2/m2', the decrypted signature block and its DSA signature, data-message key ids per the specification's ratchet, next D-H key, counters, session keys with the high/low-end rule, MAC, plaintext layout, extra symmetric key, and the whole data message rebuilt byte for byte. (b) A reference peer written from the specification talks to the real conversation in both exchange roles (texts, extra-key requests, End, fragments): everything either side builds must be accepted and read exactly by the other; SSID, fingerprint and extra keys agree.",
    tech="explicit-state model checking of the implementation against an independent reference implementation stepped in lock-step (wire re-derivation and reference peer)",
-   note="verifref (ref/*.go) is trusted as the statement of the specification; it shares only the Go standard library with otr3 and does not cover the SMP proofs"),
+   note="verifref (ref/*.go) is trusted as the statement of the specification; it shares only the Go standard library with otr3 (SMP: honest runs with equal secrets)"),
  "C20": dict(cat="model_checking", ref="§3 C20",
    text="Threads are independent scripted conversation pairs (different versions and policies; handshake, texts with rotation, OTR error, SMP, fragmentation, extra key, End). All interleavings of their API calls are executed on the real code (2 threads with full scripts, thorough also 3 threads), states matched on positions and every thread's world. After every step every package-level variable of package otr3 (list generated from the working tree) is compared bit for bit — deep, slices to full capacity — with its value after init, every message handed out earlier is re-read, and the step's observable result is compared with the same step of the script run alone. Since conversations can only meet in package-level state, 'no step modifies it' implies that steps of different conversations commute. The same scripts also run free on 16 goroutines under the race detector (sampling; corroboration only).",
    tech="exhaustive exploration of API-call interleavings of the implementation with a package-state immutability oracle; separate free-running race-detector pass",
-   note="the race-detector pass is dynamic sampling and only corroborates; writes to package state that are undone within one API call would escape the before/after comparison"),
+   note="the race-detector pass is dynamic sampling and only corroborates; a write through an alias taken earlier and undone before the next function entry or named access escapes the point comparison"),
 }
 NA_REASON = "check not built yet (work in progress; see DESIGN.md §3 for the planned bounded exploration)"
+# what was added to each check after its first version (seeded-change rounds, see DESIGN.md §3/§8)
+EXTRA = {
+ "C01": "Also: each degenerate D-H value followed by an honest one with the attacker finishing under the degenerate secret; a completed refresh must report a new SSID.",
+ "C02": "Also: a sweep of every small key-id pair re-MACed under every disclosed key; consistent re-encodings of the authenticated part (leading-zero MPIs, adjusted length words); cleartext lines injected into sessions started by query or whitespace tag must come flagged as unencrypted.",
+ "C03": "Also: explorations that start from an established session; the wire monitor reports a second message under the same AES key and counter (key-stream reuse).",
+ "C04": "Also: a sweep of every fragment size 20..330 x 10 texts x 3 ratchet positions.",
+ "C06": "Also: out-of-range D-H values as rejected inputs; transcripts compare the semantic content of emitted data messages.",
+ "C07": "Also: start states 'both ended a moment ago' and 'one side restarted and lost the session'; a trigger that starts no exchange after the ignore window is a violation.",
+ "C09": "Also: injected data messages with a wrong MAC for each of the four key pairs the receiver considers, at any moment.",
+ "C10": "Also: every disclosed value must be a receiving MAC key known to the reference; refreshes; scripted tiny D-H exponents (shared secrets of 1, 191, 192 bytes); every SMP TLV verified with the specification's equations and re-derived from the sender's randomness log by verifref (ref/smp.go), including the secret's binding to both fingerprints and the SSID.",
+ "C11": "Also: a further StartAuthenticate at any moment by either side (clean restarts must end like a single run, crossed ones must leave a working state machine); sessions that came about by a refresh or by a re-key after a lost disconnect.",
+ "C12": "Also: a malicious prover who recomputes all proofs over every combination of Pb,Qb / Pa,Qa,Ra from {0, p, 2p, 1}; a StartAuthenticate in any state must begin a run that succeeds.",
+ "C13": "Also: every ordered pair (thorough: triple) of TLV kinds in one authenticated data message; sizeable continuation pieces of a fragment train announcing 65535 pieces; a new exchange right after the call in which the randomness fault fired.",
+ "C14": "Also: the arrival-sequence search from first contact (receiver not yet bound to a peer instance, pieces of a second instance continuing the stream).",
+ "C15": "Also: states before the own tag is drawn and right after a fragmented message was reassembled; ill-formed carriers of valid tags (fragment with non-numeric counter, D-H Commit cut in its body) must not bind.",
+ "C16": "(c) Single-version conversations in every state x input in the form of the forbidden version (foreign messages, rewritten version field, the other version's fragment format): ignored without trace. (d) Every policy without a version x every OTR-looking message kind: Receive and Send are the identity.",
+ "C17": "Also: key files of 6/11/16 accounts with the first name grown over a whole entry (every token slid over every 4096-byte reader boundary) and readers that return at most c bytes per call.",
+ "C19": "Four measuring points (n, 2n, 3n, 4n) with growth required in every interval; error reports in the pattern alphabet.",
+ "C20": "Point granularity: a second binary built from instrumented copies of the sources compares all package-level variables at every function entry and before every statement naming one (a write undone within a call is seen), and runs two scripts under a cooperative scheduler with one preemption at every access point of either thread (thorough: every function entry, and two preemptions), each step compared with the solo run.",
+}
+
 def main():
     checks = []
     for pid in ALL:
@@ -82,7 +103,7 @@ def main():
             "evidence_file": "/verif/evidence/%s.json" % pid,
             "replay_cmd_template": "./check replay {path}",
             "engine": "otrmc",
-            "level_claimed": {"category": c["cat"], "text": c["text"], "design_ref": c["ref"]},
+            "level_claimed": {"category": c["cat"], "text": (c["text"] + " " + EXTRA.get(pid, "")).strip(), "design_ref": c["ref"]},
             "level_note": c.get("note", TRUST),
             "technique": c["tech"],
         })
